@@ -457,7 +457,7 @@ func outLast() any                               { return nil }
 //@ ensures [C15] depth-zero: node.First() == 0 ==> ncalls(exec.executeNextItem) == 1 && callarg[any](exec.executeNextItem, "value") == value && callarg[*valueList](exec.executeNextItem, "found") == found
 //@ ensures [C15] no-depth-zero: node.First() != 0 ==> ncalls(exec.executeNextItem) == 0
 //@ atcall executeNextItem assert [C07] forced-lax: exec.ignoreStructuralErrors
-//@ atcall executeAnyItem assert [C15 C07] from-level-1: arg_level == 1 && arg_first == node.First() && arg_last == node.Last() && arg_ignoreStructuralErrors && arg_found == found && arg_node == node.Next()
+//@ atcall executeAnyItem assert [C15 C07] from-level-1: arg_level == 1 && arg_first == node.First() && arg_last == node.Last() && arg_ignoreStructuralErrors && arg_found == found && arg_node == node.Next() && arg_unwrapNext == exec.path.IsLax()
 //@ ensures [C15] scalar: !is[[]any](value) && !is[map[string]any](value) ==> ncalls(exec.executeAnyItem) == 0
 
 //@ func (*Executor).execBinaryNode
